@@ -440,21 +440,39 @@ func checkC14(r *core.Run) {
 		}
 	}
 	// ---- the waiter
+	// (the client method that receives from Done itself, or — the wait written as a predicate of the package,
+	// waitForResponse(future, timeout) bool — the client method nearest to such a function)
 	var waiter *core.FuncInfo
-	for _, f := range w.SortedFuncs() {
-		if core.RecvNamed(f.Obj) != gc || w.IsTestFile(f.Decl.Pos()) {
-			continue
-		}
+	receives := func(f *core.FuncInfo) bool {
+		found := false
 		ast.Inspect(f.Decl.Body, func(n ast.Node) bool {
 			if ue, ok := n.(*ast.UnaryExpr); ok && ue.Op == token.ARROW {
 				if sel, ok := ast.Unparen(ue.X).(*ast.SelectorExpr); ok && sel.Sel.Name == "Done" {
 					if t := f.Pkg.TypesInfo.TypeOf(sel.X); t != nil && strings.HasSuffix(t.String(), "message.MessageFuture") {
+						found = true
+					}
+				}
+			}
+			return !found
+		})
+		return found
+	}
+	for dist := 0; dist <= 1 && waiter == nil; dist++ {
+		for _, f := range w.SortedFuncs() {
+			if core.RecvNamed(f.Obj) != gc || w.IsTestFile(f.Decl.Pos()) || f.Decl.Body == nil || waiter != nil {
+				continue
+			}
+			if dist == 0 && receives(f) {
+				waiter = f
+			}
+			if dist == 1 {
+				for _, cs := range w.Calls(f) {
+					if h := w.Info(cs.Static); h != nil && h.Pkg == f.Pkg && h != f && h.Decl.Body != nil && !cs.InGo && receives(h) {
 						waiter = f
 					}
 				}
 			}
-			return true
-		})
+		}
 	}
 	if r.Anchor("C14.timeout", waiter, "GettyRemotingClient method waiting on MessageFuture.Done") != nil {
 		// the timeout arm: every return reached through `<-...After(..)` carries a non-nil error and has deleted
